@@ -274,6 +274,76 @@ def stage2():
     return done
 
 
+# ------------------------------------------------------------------ stage 3
+C06_STAGE3 = """
+(* ---- third wave (stage 3): SubstreamsInfo._read / retrieve / _inherit_folder_digests / default and Folder.get_unpack_size /
+   _find_out_bin_pair as translated on this run are parse_substreams / default_digests / folder_unpack_size.
+   The reader is called as the code calls it: numfolders = len(folders).  Exact equality, error classes included. ---- *)
+Theorem C06_gen_SubstreamsInfo_retrieve_is_parse_substreams : forall lim bs (gfs : list ArchiveinfoRecords.Folder),
+  wf_bytes bs = true -> parse_substreams lim (map FolderGen.folder_of gfs) bs <> Err EFuel ->
+  (do (o, r) <- ArchiveinfoRecords.SubstreamsInfo_retrieve bs (zlen gfs) gfs; Ok (SubstreamsGen.sub_of o, r))
+  = parse_substreams lim (map FolderGen.folder_of gfs) bs.
+Proof. exact SubstreamsGen.gen_SubstreamsInfo_retrieve_eq_model. Qed.
+Print Assumptions C06_gen_SubstreamsInfo_retrieve_is_parse_substreams.
+
+Theorem C06_gen_Folder_get_unpack_size_is_model : forall g : ArchiveinfoRecords.Folder,
+  ArchiveinfoRecords.Folder_get_unpack_size g = folder_unpack_size (FolderGen.folder_of g).
+Proof. exact SubstreamsGen.gen_get_unpack_size. Qed.
+Print Assumptions C06_gen_Folder_get_unpack_size_is_model.
+
+(* SubstreamsInfo.default(folders): what the reader installs for an archive without a SubStreamsInfo record (F11 repair) *)
+Theorem C06_gen_SubstreamsInfo_default_is_default_digests : forall gfs : list ArchiveinfoRecords.Folder,
+  ArchiveinfoRecords.SubstreamsInfo_default gfs
+  = let '(d, g) := default_digests (repeat 1 (length gfs)) (map FolderGen.folder_of gfs) in
+    Ok (ArchiveinfoRecords.mkSubstreamsInfo g d None (repeat 1 (length gfs))).
+Proof. exact SubstreamsGen.gen_SubstreamsInfo_default. Qed.
+Print Assumptions C06_gen_SubstreamsInfo_default_is_default_digests.
+"""
+
+C07_STAGE3 = """
+(* ---- third wave (stage 3): SubstreamsInfo.write as translated on this run is write_substreams, for every object. ---- *)
+Theorem C07_gen_SubstreamsInfo_write_is_write_substreams : forall self : ArchiveinfoRecords.SubstreamsInfo,
+  ArchiveinfoRecords.SubstreamsInfo_write self = write_substreams (SubstreamsGen.sub_of self).
+Proof. exact SubstreamsGen.gen_SubstreamsInfo_write_eq_model. Qed.
+Print Assumptions C07_gen_SubstreamsInfo_write_is_write_substreams.
+
+(* hence the section theorem over the generated writer *)
+Theorem C07_gen_substreams_strict : forall lim fs (self : ArchiveinfoRecords.SubstreamsInfo) sz bs,
+  let s := SubstreamsGen.sub_of self in
+  Forall (fun f => wfw_folder lim f = true) fs -> zlen fs <= lim ->
+  wfw_sub lim fs s = true -> s_sizes s = Some sz -> (length (s_nums s) =? 0)%nat = false ->
+  ArchiveinfoRecords.SubstreamsInfo_write self = Ok bs ->
+  exists body, bs = 8 :: body /\\ 
+    forall r, s_substreams lim (map sem_folder fs) (body ++ r) =
+              Ok ((s_nums s, sz, crc_opts (Header.s_digests s) (s_digestsdefined s)), r).
+Proof.
+  intros lim fs self sz bs s HF Hn Hwf Hsz Hne Hw. rewrite SubstreamsGen.gen_SubstreamsInfo_write_eq_model in Hw.
+  exact (s_substreams_wr lim fs s sz bs HF Hn Hwf Hsz Hne Hw).
+Qed.
+Print Assumptions C07_gen_substreams_strict.
+"""
+
+READ_DEPS_3 = ["Folder._find_out_bin_pair", "Folder.get_unpack_size", "SubstreamsInfo.__init__", "SubstreamsInfo._inherit_folder_digests",
+               "SubstreamsInfo._read", "SubstreamsInfo.retrieve", "SubstreamsInfo.default"]
+WRITE_DEPS_3 = ["SubstreamsInfo.__init__", "SubstreamsInfo.write"]
+
+
+def stage3():
+    done = []
+    add_require("coq/props/C06.v", "From P7 Require HeaderGenPrims FolderGen.\n", "From P7 Require SubstreamsGen.\n")
+    add_require("coq/props/C07.v", "From P7 Require HeaderGenPrims FolderGen.\n", "From P7 Require SubstreamsGen.\n")
+    if patch("coq/props/C06.v", "C06_gen_SubstreamsInfo_retrieve_is_parse_substreams", [], C06_STAGE3):
+        done.append("props/C06.v")
+    if patch("coq/props/C07.v", "C07_gen_SubstreamsInfo_write_is_write_substreams", [], C07_STAGE3):
+        done.append("props/C07.v")
+    if add_gen_deps("tools/harness/c06.py", READ_DEPS_3):
+        done.append("tools/harness/c06.py")
+    if add_gen_deps("tools/harness/c07.py", WRITE_DEPS_3):
+        done.append("tools/harness/c07.py")
+    return done
+
+
 if __name__ == "__main__":
     print("stage 1:", stage1())
     print("stage 2:", stage2())
+    print("stage 3:", stage3())
